@@ -314,6 +314,7 @@ func (e *executor) executeField(objectValue any, fields []*ast.Field, fieldDef *
 	field := fields[0]
 	argumentValues, coercionErr := coerceArgumentValues(field, fieldDef.Arguments, field.Arguments, e.VariableValues)
 	if coercionErr != nil {
+		coercionErr.Path = path.Slice()
 		return future.Err[any](coercionErr)
 	}
 	if err := e.Context.Err(); err != nil {
